@@ -282,6 +282,13 @@ def _gen_op(o, g, f, cfg, cells, cols, models, rows_n, cell, spec_for):
         if len(m.cols) >= 2 and g.random() < 0.2:
             return {'op': o, 't': t, 'col': g.sample(m.cols, 2), 'how': 'list'}
         return {'op': o, 't': t, 'col': g.choice(m.cols), 'how': g.choice(['item', 'attr'])}
+    if o in ('update', 'update_reject') and not m.cols and len(cols) >= 2 and g.random() < 0.7:
+        # a column-less table takes its length from the first column assigned; a scalar (or one-element list) listed first
+        # fixes it at 1, and a longer column listed after it does not fit
+        L = g.choice([2, 3])
+        cs = g.sample(cols, g.randint(2, min(3, len(cols))))
+        items = [[c, ({'list': [enc(cell()) for _ in range(L)]} if g.random() < 0.6 else {'scalar': enc(cell())})] for c in cs]
+        return {'op': o, 't': t, 'items': items}
     if o in ('update', 'update_reject'):
         cs = g.sample(cols, g.randint(1, min(3, len(cols))))
         items = [[c, spec_for(n)] for c in cs]
@@ -359,6 +366,15 @@ def _gen_op(o, g, f, cfg, cells, cols, models, rows_n, cell, spec_for):
             if av:
                 items = [[t2, g.choice(['rep', 'typename', 'is_none']), [t1]], [t1, g.choice(['rep', 'ident', 'typename']), [g.choice(av)]]]
                 ncall = 2
+        elif r2 < 0.27 and len(m.cols) >= 2 and len(cols) >= 4:
+            # three formulas in one call: a redefines an existing column, t1 reads that column, t2 reads t1
+            a_, b_ = g.sample(m.cols, 2)
+            fresh = [c for c in cols if c not in (a_, b_)]
+            if len(fresh) >= 2:
+                t1, t2 = g.sample(fresh, 2)
+                items = [[t1, g.choice(['rep', 'typename']), [a_]], [t2, g.choice(['rep', 'is_none', 'typename']), [t1]], [a_, g.choice(['rep', 'typename']), [b_]]]
+                g.shuffle(items)
+                ncall = 3
         elif r2 < 0.3 and m.cols:
             # a single callable that overwrites the column it reads
             c = g.choice(m.cols)
@@ -450,7 +466,7 @@ def _gen_op(o, g, f, cfg, cells, cols, models, rows_n, cell, spec_for):
     if o == 'add_zero':
         return {'op': o, 't': t, 'z': g.choice([None, 0]), 'right': g.random() < 0.3}
     if o == 'concat':
-        k = g.choice([1, 2, 2, 3, 4])
+        k = g.choice([1, 2, 2, 3, 4]) if g.random() < 0.9 else g.choice([8, 9, 10, 12, 17])
         return {'op': o, 'ts': [slot() for _ in range(k)], 'aslist': g.random() < 0.4}
     if o == 'sum_rows':
         return {'op': o, 't': t}
